@@ -293,6 +293,37 @@ def rule_perm(ctx):
                             f"involutions (swaps)")
             else:
                 raise AnalysisError(f"{f.qual}: cannot tell current from wanted layout in `{C.unparse(n, 60)}`")
+            # (F21) a transposition is only a plan when the wanted layout is a *permutation* of the current one:
+            # a test `set(current) == set(wanted)` also holds when the current layout repeats an index
+            # (`aab` vs `ab`), where the tuple has fewer entries than the operand has axes
+            sets_only = None
+            for i_, in_true in C.enclosing_ifs(f, st):
+                if not in_true:
+                    continue
+                conj = i_.test.values if isinstance(i_.test, ast.BoolOp) and isinstance(i_.test.op, ast.And) else [i_.test]
+                txts = [C.unparse(c) for c in conj]
+                pair = ({source, target})
+                mentions = [t_ for t_ in txts if source in t_ and target in t_]
+                if not mentions:
+                    continue
+                has_set = any(t_.replace(" ", "") in (f"set({source})==set({target})", f"set({target})==set({source})")
+                              for t_ in txts)
+                has_len = any(("len(" in t_ and source in t_ and target in t_ and "==" in t_) or
+                              t_.replace(" ", "") in (f"sorted({source})==sorted({target})", f"sorted({target})==sorted({source})")
+                              for t_ in txts)
+                if has_set and not has_len:
+                    sets_only = i_
+            if sets_only is not None:
+                k2 = ctx.key(f, "C11-PERM", f"permutation:{tgt}")
+                # is the current layout known to be repeat-free?  (operand terms of the equation are not)
+                r.violation(k2, C.loc(f, sets_only), f"`{tgt}` is planned as a bare transposition under "
+                            f"`{C.unparse(sets_only.test, 60)}`: equal index *sets* do not make `{target}` a permutation of "
+                            f"`{source}` — an operand with a repeated index (`aab` wanted as `ab`) gets a permutation tuple "
+                            f"shorter than its rank and transpose raises; the lengths must agree too")
+            elif any(in_true for _, in_true in C.enclosing_ifs(f, st)):
+                k2 = ctx.key(f, "C11-PERM", f"permutation:{tgt}")
+                r.ok(k2, C.loc(f, n), "the transposition-only plan is guarded by more than set equality (or by none: "
+                     "layouts known repeat-free)")
     return r
 
 
@@ -524,6 +555,80 @@ def rule_axes(ctx):
                     f"tensordot) never matches and the axis is treated as uncontracted")
     else:
         r.ok(k, pf.loc, f"caller axes are normalised before {checked} positional comparison(s)")
+    # (seed C11_3) the equation tensordot is translated into: the output starts as the left operand's symbols,
+    # loses each contracted symbol *by value*, gains a fresh symbol per uncontracted right axis; the right
+    # operand's symbol at a contracted axis is the left symbol at the paired axis
+    k = ctx.key(pf, "C11-AXES", "equation")
+    probs = []
+    la = ctx.r.local_assignments(pf)
+    js = [n for n in walk_local(pf.node) if isinstance(n, ast.JoinedStr)
+          and len([v for v in n.values if isinstance(v, ast.FormattedValue)]) == 3]
+    names = None
+    for j in js:
+        fv = [v.value for v in j.values if isinstance(v, ast.FormattedValue)]
+        nm_ = []
+        for e in fv:
+            inner = e.args[0] if isinstance(e, ast.Call) and e.args else e
+            nm_.append(dotted(inner))
+        consts = [v.value for v in j.values if isinstance(v, ast.Constant)]
+        if all(nm_) and consts == [",", "->"]:
+            names = nm_
+    if names is None:
+        raise AnalysisError("_parse_tensordot_axes_to_matmul: the generated equation `left,right->out` was not recognised")
+    ia, ib, io = names
+    d_io = la.get(io, [])
+    if not (len(d_io) == 1 and C.unparse(d_io[0]).replace(" ", "") in (f"{ia}.copy()", f"list({ia})", f"{ia}[:]")):
+        probs.append(f"the output symbols do not start as a copy of the left operand's ({[C.unparse(v, 30) for v in d_io]})")
+    for n in walk_local(pf.node):
+        positional = None
+        if isinstance(n, ast.Delete):
+            for t in n.targets:
+                if isinstance(t, ast.Subscript) and dotted(t.value) == io:
+                    positional = n
+        elif isinstance(n, ast.Call) and isinstance(n.func, ast.Attribute) and dotted(n.func.value) == io and \
+                n.func.attr == "pop" and n.args:
+            positional = n
+        if positional is not None:
+            lp_ = C.enclosing_loops(pf, C.enclosing_stmt(pf, positional))
+            it = C.unparse(lp_[0].iter) if lp_ else ""
+            if not ("sorted(" in it and ("reverse=True" in it or it.startswith("reversed("))):
+                probs.append(f"`{C.unparse(positional, 40)}` removes an output symbol by *position* while iterating `{it}`: "
+                             f"earlier removals shift later positions unless the axes are visited in descending order — "
+                             f"wrong for caller axes that are not ascending (e.g. axes=((2, 0), (0, 1)))")
+    rem = [n for n in walk_local(pf.node) if isinstance(n, ast.Call) and isinstance(n.func, ast.Attribute)
+           and dotted(n.func.value) == io and n.func.attr == "remove"]
+    by_pos = [p_ for p_ in probs if "by *position*" in p_]
+    app_b = [n for n in walk_local(pf.node) if isinstance(n, ast.Call) and isinstance(n.func, ast.Attribute)
+             and dotted(n.func.value) == ib and n.func.attr == "append"]
+    loops_b = [n for n in pf.node.body if isinstance(n, ast.For) and "range(" in C.unparse(n.iter)]
+    if not by_pos:
+        if len(rem) != 1:
+            probs.append(f"a contracted symbol is not removed from the output exactly once per contracted axis ({len(rem)} removal sites)")
+        else:
+            sym = dotted(rem[0].args[0])
+            sd = la.get(sym, []) if sym else []
+            from_left = [v for v in sd if isinstance(v, ast.Subscript) and dotted(v.value) == ia]
+            if not from_left:
+                probs.append(f"the symbol removed from the output (`{sym}`) is not looked up in the left operand's symbols")
+            else:
+                axa = dotted(from_left[0].slice)
+                ad = la.get(axa, []) if axa else []
+                paired = any(isinstance(v, ast.Subscript) and isinstance(v.slice, ast.Call) and
+                             isinstance(v.slice.func, ast.Attribute) and v.slice.func.attr == "index" for v in ad)
+                if not paired:
+                    probs.append(f"the left axis `{axa}` is not the one paired with the right axis "
+                                 f"(`axes_a[axes_b.index(axb)]`)")
+            if app_b and loops_b:
+                fresh = [v for v in la.get(dotted(app_b[0].args[0]) or "", []) if "next(" in C.unparse(v)]
+                if not fresh:
+                    probs.append("an uncontracted right axis does not get a fresh symbol")
+    if len(app_b) != 1 or not loops_b or C.enclosing_ifs(pf, C.enclosing_stmt(pf, app_b[0])):
+        probs.append("the right operand does not receive exactly one symbol per axis (append on every path of the loop)")
+    if probs:
+        r.violation(k, pf.loc, "; ".join(probs[:3]))
+    else:
+        r.ok(k, pf.loc, f"`{ia},{ib}->{io}`: output = left symbols minus contracted (by value) plus fresh right symbols; "
+             f"right symbol at a contracted axis = left symbol at the paired axis")
     return r
 
 
@@ -534,4 +639,282 @@ def rule_memo(ctx):
                         lambda i: "contract.py" in i.construct, 3)
 
 
-RULES = [rule_layout, rule_perm, rule_single, rule_axes, rule_memo]
+def _plan_roles(ctx):
+    """names of the 7 plan elements in the order the two-operand planner returns them"""
+    f = _plan(ctx)
+    rets = [n for n in f.node.body if isinstance(n, ast.Return) and isinstance(n.value, ast.Tuple)]
+    C.require(rets and len(rets[-1].value.elts) == 7, f"{PLAN}: 7-element plan not found")
+    names = [dotted(e) if not isinstance(e, ast.Constant) else "pure" for e in rets[-1].value.elts]
+    C.require(all(names[:6]), f"{PLAN}: plan elements are not plain names")
+    return names
+
+
+def rule_exec(ctx):
+    """The plan is a 7-tuple handed positionally from planner to executor through two front ends; the executor
+    applies, per operand, the single-operand stage and then the reshape, each exactly when planned, multiplies
+    (left, right), and finishes with reshape then transposition.  All of it is order and polarity of a dozen
+    statements — invisible to tests that never plan a given stage."""
+    r = RuleResult("C11-EXEC", "the executor applies exactly the planned stages, in plan order", 4)
+    roles = _plan_roles(ctx)            # e.g. eq_a, eq_b, new_shape_a, new_shape_b, new_shape_ab, perm_ab, pure
+    ex = ctx.p.func(C.CONTRACT, "_do_contraction_via_bmm")
+    params = [a.arg for a in ex.node.args.args]
+    C.require(len(params) >= 9, "_do_contraction_via_bmm: parameters not recognised")
+    A, B = params[0], params[1]
+    plan_params = params[2:9]
+    # (1) every caller unpacks the plan into 7 names and forwards them in the same order
+    for fname in ("einsum", "tensordot"):
+        f = ctx.p.func(C.CONTRACT, fname)
+        k = ctx.key(f, "C11-EXEC", "forward")
+        unp = [n for n in walk_local(f.node) if isinstance(n, ast.Assign) and isinstance(n.targets[0], ast.Tuple)
+               and len(n.targets[0].elts) == 7 and isinstance(n.value, ast.Call)
+               and (dotted(n.value.func) or "").startswith("_parse_")]
+        calls = [n for n in walk_local(f.node) if isinstance(n, ast.Call) and dotted(n.func) == "_do_contraction_via_bmm"]
+        if not unp or not calls:
+            star = calls and any(isinstance(a, ast.Starred) for a in calls[0].args)
+            if star:
+                r.ok(k, f.loc, "the plan is forwarded whole (*plan)")
+                continue
+            raise AnalysisError(f"{fname}: unpacking of the plan / executor call not recognised")
+        got = [dotted(e) for e in unp[0].targets[0].elts]
+        fwd = [dotted(a) for a in calls[0].args[2:9]]
+        kw = {kx.arg: dotted(kx.value) for kx in calls[0].keywords}
+        if kw:
+            fwd = fwd + [kw.get(p_) for p_ in plan_params[len(fwd):]]
+        if got == fwd:
+            r.ok(k, C.loc(f, calls[0]), "the 7 plan elements reach the executor in the order the planner returned them")
+        else:
+            r.violation(k, C.loc(f, calls[0]), f"the plan is unpacked as {got} but handed to the executor as {fwd}: "
+                        f"elements of the same kind (two equations, three shapes) are swapped silently")
+    # (2) stages
+    stages = []   # (guard name | None, positive?, op, array, arg, node)
+    def visit(body, guard):
+        for st in body:
+            if isinstance(st, ast.If):
+                t = st.test
+                g = None
+                if isinstance(t, ast.Compare) and len(t.ops) == 1 and C.unparse(t.comparators[0]) == "None" and \
+                        isinstance(t.left, ast.Name):
+                    g = (t.left.id, isinstance(t.ops[0], ast.IsNot), "notnone")
+                elif isinstance(t, ast.Name):
+                    g = (t.id, True, "truth")
+                elif isinstance(t, ast.UnaryOp) and isinstance(t.op, ast.Not) and isinstance(t.operand, ast.Name):
+                    g = (t.operand.id, False, "truth")
+                elif isinstance(t, ast.Call) and dotted(t.func) == "isinstance":
+                    g = guard  # refinement of the same stage
+                else:
+                    g = ("?" + C.unparse(t, 30), True, "?")
+                visit(st.body, g if g is not None else guard)
+                if st.orelse:
+                    if isinstance(t, ast.Call) and dotted(t.func) == "isinstance":
+                        visit(st.orelse, guard)
+                    else:
+                        visit(st.orelse, (g[0], not g[1], g[2]) if g else guard)
+                continue
+            val = None
+            tgt = None
+            if isinstance(st, ast.Assign) and isinstance(st.targets[0], ast.Name):
+                val, tgt = st.value, st.targets[0].id
+            elif isinstance(st, ast.Return):
+                val, tgt = st.value, "return"
+            if isinstance(val, ast.Call):
+                fn = dotted(val.func)
+                if fn == "do" and val.args and isinstance(val.args[0], ast.Constant):
+                    stages.append((guard, val.args[0].value, tgt, [dotted(a) for a in val.args[1:]], st))
+                elif fn and fn.startswith("_einsum"):
+                    stages.append((guard, "einsum_single", tgt, [dotted(a) for a in val.args], st))
+            elif isinstance(st, ast.Return) and isinstance(val, ast.Name):
+                stages.append((guard, "return", tgt, [val.id], st))
+    visit(ex.node.body, None)
+    eqa, eqb, sha, shb, shab, perm, pure = plan_params
+    k = ctx.key(ex, "C11-EXEC", "stages")
+    probs = []
+
+    def find(op, first_arg=None, plan_arg=None):
+        return [i for i, (g, o, tgt, args, st) in enumerate(stages) if o == op and (first_arg is None or (args and args[0] == first_arg) or (len(args) > 1 and args[1] == first_arg and op == "einsum_single"))
+                and (plan_arg is None or plan_arg in args)]
+    order = []
+    for arr, eq, sh in ((A, eqa, sha), (B, eqb, shb)):
+        tr = find("transpose", arr, eq)
+        es = [i for i in find("einsum_single") if stages[i][3][:2] == [eq, arr]]
+        rs = find("reshape", arr, sh)
+        for nm, ix, gname in (("transposition", tr, eq), ("single-operand einsum", es, eq), ("reshape", rs, sh)):
+            if len(ix) != 1:
+                probs.append(f"operand `{arr}`: expected one {nm} stage driven by `{gname}`, found {len(ix)}")
+                continue
+            g = stages[ix[0]][0]
+            if g is None or g[0] != gname or not g[1]:
+                probs.append(f"operand `{arr}`: the {nm} with `{gname}` runs under `{g}` instead of `{gname} is not None`")
+            if stages[ix[0]][2] != arr:
+                probs.append(f"operand `{arr}`: the result of the {nm} is bound to `{stages[ix[0]][2]}`")
+        if len(tr) == 1 and len(es) == 1 and len(rs) == 1:
+            if not (max(tr[0], es[0]) < rs[0]):
+                probs.append(f"operand `{arr}`: the reshape comes before the single-operand stage it was planned after")
+            order.append(rs[0])
+    mul = find("multiply")
+    mm = find("matmul")
+    if len(mul) != 1 or stages[mul[0]][3][:2] != [A, B] or stages[mul[0]][0] is None or stages[mul[0]][0][0] != pure \
+            or not stages[mul[0]][0][1] or stages[mul[0]][2] != "return":
+        probs.append("the element-wise product (left, right) is not returned exactly under the pure-multiplication flag")
+    if len(mm) != 1 or stages[mm[0]][3][:2] != [A, B]:
+        probs.append("matmul is not applied to (left, right) in that order")
+    elif stages[mm[0]][0] is not None and not (stages[mm[0]][0][0] == pure and not stages[mm[0]][0][1]):
+        probs.append(f"matmul runs under `{stages[mm[0]][0]}`")
+    if len(mm) == 1:
+        ab = stages[mm[0]][2]
+        rs, tp = find("reshape", ab, shab), find("transpose", ab, perm)
+        for nm, ix, gname in (("output reshape", rs, shab), ("output transposition", tp, perm)):
+            if len(ix) != 1:
+                probs.append(f"expected one {nm} driven by `{gname}`, found {len(ix)}")
+            else:
+                g = stages[ix[0]][0]
+                if g is None or g[0] != gname or not g[1]:
+                    probs.append(f"the {nm} runs under `{g}` instead of `{gname} is not None`")
+                if stages[ix[0]][2] != ab:
+                    probs.append(f"the result of the {nm} is bound to `{stages[ix[0]][2]}`")
+        if len(rs) == 1 and len(tp) == 1 and not (mm[0] < rs[0] < tp[0]):
+            probs.append("after matmul the output is not reshaped first and transposed last (the permutation was planned "
+                         "for the unfused axes)")
+        if order and not all(o < mm[0] for o in order):
+            probs.append("an operand is prepared after the matmul")
+        rets = [i for i, sg in enumerate(stages) if sg[1] == "return" and sg[3] == [ab]]
+        if not rets:
+            probs.append("the prepared product is not what is returned")
+    if probs:
+        r.violation(k, ex.loc, "; ".join(probs[:4]))
+    else:
+        r.ok(k, ex.loc, "per operand: (transpose | single-operand einsum) then reshape, each iff planned; multiply / matmul on "
+             "(left, right); output reshape then transposition, each iff planned")
+    # (3) position k of the planner's return means the same thing as parameter k of the executor: the planner's
+    # elements are classified by how they are *built*, the executor's parameters by how they are *used*
+    k = ctx.key(ex, "C11-EXEC", "parameters")
+    pf = _plan(ctx)
+    groups, a_term, b_term, out = _groups(pf)
+    la = ctx.r.local_assignments(pf)
+    rets = [n for n in pf.node.body if isinstance(n, ast.Return) and isinstance(n.value, ast.Tuple)]
+    built = []
+    for e in rets[-1].value.elts[:6]:
+        role = None
+        for v in la.get(dotted(e) or "", []):
+            if role in ("eqL", "eqR", "permO"):
+                break
+            if isinstance(v, ast.JoinedStr):
+                fv = [dotted(x.value) for x in v.values if isinstance(x, ast.FormattedValue)]
+                role = "eqL" if fv and fv[0] == a_term else "eqR" if fv and fv[0] == b_term else role
+            gens = [x for x in ast.walk(v) if isinstance(x, (ast.GeneratorExp, ast.ListComp))]
+            for g in gens:
+                el = g.elt
+                if isinstance(el, ast.Call) and isinstance(el.func, ast.Attribute) and el.func.attr == "index":
+                    src_ = dotted(el.func.value)
+                    role = "eqL" if src_ == a_term else "eqR" if src_ == b_term else (role or "permO")
+            if role in ("eqL", "eqR", "permO"):
+                continue
+            for g in gens:
+                itn = dotted(g.generators[0].iter)
+                gdefs = la.get(itn or "", [])
+                syms = set()
+                for gd in gdefs:
+                    sq = _seq(gd, groups, {}, None)
+                    if sq:
+                        syms |= set(sq)
+                if syms:
+                    role = "shapeL" if "AK" in syms and "BK" not in syms else \
+                        "shapeR" if "BK" in syms and "AK" not in syms else "shapeO"
+        built.append(role)
+    used = []
+    for prm in plan_params[:6]:
+        role = None
+        for g, op, tgt, args, st in stages:
+            if prm not in args:
+                continue
+            arr = args[0] if op != "einsum_single" else (args[1] if len(args) > 1 else None)
+            side = "L" if arr == A else "R" if arr == B else "O"
+            if op in ("transpose", "einsum_single"):
+                role = ("eq" + side) if side != "O" else "permO"
+            elif op == "reshape":
+                role = "shape" + side
+        used.append(role)
+    if None in built or None in used:
+        raise AnalysisError(f"{PLAN}/executor: plan elements not classified (built {built}, used {used})")
+    if built == used:
+        r.ok(k, ex.loc, f"plan positions mean the same on both sides: {built}")
+    else:
+        r.violation(k, ex.loc, f"the planner returns its elements as {built} but the executor's parameters, by their use, are "
+                    f"{used}: two elements of the same type travel in each other's place")
+    return r
+
+
+def rule_pure(ctx):
+    """`_parse_eq_to_pure_multiplication`: both operands are reshaped to the *full* output rank (a 1 where the
+    operand lacks the index) so that broadcasting aligns equal indices; the kept indices are listed in output
+    order."""
+    r = RuleResult("C11-PURE", "outer / Hadamard products align operands by output position", 3)
+    f = ctx.p.func(C.CONTRACT, "_parse_eq_to_pure_multiplication")
+    fl = ctx.flow(f)
+    params = [a.arg for a in f.node.args.args]
+    C.require(len(params) == 5, "_parse_eq_to_pure_multiplication: parameters not recognised")
+    a_term, shape_a, b_term, shape_b, out = params
+    loops = [n for n in f.node.body if isinstance(n, ast.For)]
+    C.require(len(loops) == 1 and dotted(loops[0].iter) == out, "_parse_eq_to_pure_multiplication: loop over the output not found")
+    lp = loops[0]
+    ix = lp.target.id
+    rets = [n for n in walk_local(f.node) if isinstance(n, ast.Return) and isinstance(n.value, ast.Tuple)]
+    C.require(rets and len(rets[0].value.elts) == 7, "_parse_eq_to_pure_multiplication: plan not found")
+    relts = rets[0].value.elts
+    for term, shp, pos_shape, pos_eq, side in ((a_term, shape_a, 2, 0, "left"), (b_term, shape_b, 3, 1, "right")):
+        k = ctx.key(f, "C11-PURE", side)
+        probs = []
+        ifs = [n for n in lp.body if isinstance(n, ast.If) and isinstance(n.test, ast.Compare) and
+               dotted(n.test.left) == ix and dotted(n.test.comparators[0]) == term]
+        if len(ifs) != 1 or not isinstance(ifs[0].test.ops[0], (ast.In, ast.NotIn)):
+            raise AnalysisError(f"_parse_eq_to_pure_multiplication: membership branch for `{term}` not found")
+        i_ = ifs[0]
+        has, lacks = (i_.body, i_.orelse) if isinstance(i_.test.ops[0], ast.In) else (i_.orelse, i_.body)
+        shape_name = dotted(relts[pos_shape])
+
+        def appends(body, nm):
+            return [c for st in body for c in ast.walk(st) if isinstance(c, ast.Call) and isinstance(c.func, ast.Attribute)
+                    and c.func.attr == "append" and dotted(c.func.value) == nm]
+        ah, al = appends(has, shape_name), appends(lacks, shape_name)
+        if len(ah) != 1 or C.unparse(ah[0].args[0]).replace(" ", "") != f"{shp}[{term}.index({ix})]":
+            probs.append(f"for an output index the operand carries, its own dimension `{shp}[{term}.index({ix})]` is not "
+                         f"appended once ({[C.unparse(c) for c in ah]})")
+        if len(al) != 1 or not (isinstance(al[0].args[0], ast.Constant) and al[0].args[0].value == 1):
+            probs.append(f"for an output index the operand lacks, a 1 is not appended once ({[C.unparse(c) for c in al]})")
+        # the shape reaches the plan unchanged: its only strong definition is the empty list
+        la = [v for v in ctx.r.local_assignments(f).get(shape_name, [])]
+        if len(la) != 1 or C.unparse(la[0]) != "[]":
+            probs.append(f"`{shape_name}` is re-assigned ({[C.unparse(v, 30) for v in la]}) between the loop and the plan: "
+                         f"without the full-rank reshape, broadcasting aligns *trailing* axes, not equal indices")
+        # kept indices in output order
+        desired = None
+        for st in has:
+            if isinstance(st, ast.AugAssign) and isinstance(st.op, ast.Add) and dotted(st.value) == ix and isinstance(st.target, ast.Name):
+                desired = st.target.id
+        eqn = relts[pos_eq]
+        eq_defs = ctx.r.local_assignments(f).get(dotted(eqn), []) if isinstance(eqn, ast.Name) else []
+        js = [v for v in eq_defs if isinstance(v, ast.JoinedStr)]
+        if desired is None:
+            probs.append("the operand's indices are not collected in output order")
+        elif not js or [dotted(v.value) for v in js[0].values if isinstance(v, ast.FormattedValue)] != [term, desired]:
+            probs.append(f"the single-operand stage is not `{term}->{desired}`")
+        else:
+            g = [i2 for i2, t in C.enclosing_ifs(f, [n for n in walk_local(f.node) if isinstance(n, ast.Assign) and n.value is js[0]][0])]
+            t = g[0].test if g else None
+            if not (isinstance(t, ast.Compare) and isinstance(t.ops[0], ast.NotEq) and {dotted(t.left), dotted(t.comparators[0])} == {term, desired}):
+                probs.append(f"the single-operand stage is not planned exactly when `{desired} != {term}`")
+        if probs:
+            r.violation(k, C.loc(f, lp), "; ".join(probs))
+        else:
+            r.ok(k, C.loc(f, lp), f"{side} operand: one shape entry per output index (own dimension or 1), returned as built; "
+                 f"prepared as `{term}->{desired}` iff they differ")
+    k = ctx.key(f, "C11-PURE", "flags")
+    tail = [C.unparse(e) for e in relts[4:]]
+    if tail == ["None", "None", "True"]:
+        r.ok(k, C.loc(f, rets[0]), "no output reshape / transposition; flagged as pure multiplication")
+    else:
+        r.violation(k, C.loc(f, rets[0]), f"the plan ends with {tail}, expected (None, None, True): the executor multiplies "
+                    f"element-wise only under the flag and applies no output stage")
+    return r
+
+
+RULES = [rule_layout, rule_perm, rule_single, rule_axes, rule_memo, rule_exec, rule_pure]
